@@ -258,13 +258,17 @@ def compute_vc_evaluated(fi: FuncInfo):
     soft = [[1.7, -0.3, 0.9], [-2.5, 0.25, 4.0]]
     cv = [[0.4, 2.0, -1.1, 0.5, -0.75, 3.0], [1.5, -0.5, 0.125, -2.0, 0.0, 0.75]]
     attrs = {"self.lv_ind": lv, "self.var_degree": [1, 2, 3], "self.chk_degree": [2, 2, 2], "self.num_edges": 6, "self.code_length": 3, "self.device": "cpu"}
-    try:
-        run_fragment(fi.body, {"cv": cv, "soft_input": soft}, attrs, materialise=True, max_steps=100000)
-        return None, "no value returned"
-    except FragReturn as r:
-        got = r.value
-    except (Unfoldable, FragRaise, TypeError, IndexError, ValueError) as exc:
-        return None, str(exc)
+    from ..frag import coverage_scope
+
+    with coverage_scope() as scope:
+        try:
+            run_fragment(fi.body, {"cv": cv, "soft_input": soft}, attrs, materialise=True, max_steps=100000)
+            return None, "no value returned"
+        except FragReturn as r:
+            got = r.value
+        except (Unfoldable, FragRaise, TypeError, IndexError, ValueError) as exc:
+            return None, str(exc)
+    gap = scope.note([fi.node])
     want = [[soft[b][lv[e]] - cv[b][e] for e in range(6)] for b in range(2)]
     if not (isinstance(got, list) and len(got) == 2 and all(isinstance(r_, list) and len(r_) == 6 and all(isinstance(x, (int, float)) and not isinstance(x, bool) for x in r_) for r_ in got)):
         return None, "result is not a 2 x 6 real matrix"
@@ -273,6 +277,8 @@ def compute_vc_evaluated(fi: FuncInfo):
             if abs(got[b][e] - want[b][e]) > 1e-9:
                 deg = [1, 2, 3][lv[e]]
                 return VIOLATION, f"edge {e} (variable {lv[e]} of degree {deg}): message {got[b][e]!r} for posterior {soft[b][lv[e]]} and incoming check message {cv[b][e]}; the extrinsic message is posterior - incoming = {want[b][e]!r}. The caller hands in the running posterior, so an edge that does not subtract its own incoming message feeds the check's information back to it (double counting from the second iteration on)"
+    if gap:
+        return None, gap
     return OK, "message on every edge = posterior of its variable minus the check's message on the same edge (leaf variables included)"
 
 
